@@ -135,6 +135,8 @@ func (v *IndexVamana) InsertUpdateDelete(ctx context.Context, points <-chan Inde
 
 func (v *IndexVamana) insertUpdateDelete(ctx context.Context, pointQueue <-chan IndexVectorChange) error {
 	// ---------------------------
+	ctx, cancel := context.WithCancel(ctx)
+	defer cancel()
 	startTime := time.Now()
 	// ---------------------------
 	/* Update and delete operations do a full scan to prune nodes correctly.
@@ -196,7 +198,12 @@ func (v *IndexVamana) insertUpdateDelete(ctx context.Context, pointQueue <-chan 
 	errCs[numWorkers] = distributeErrC
 	/* We don't want to interleave inbound edge pruning for update and delete
 	 * while insert is happening. This may again lead to disconnected graphs. */
-	if err := <-utils.MergeErrorsWithContext(ctx, errCs...); err != nil {
+	insertErrC := utils.MergeErrorsWithContext(ctx, errCs...)
+	if err := <-insertErrC; err != nil {
+		// Stop the workers and wait for them, they use the transaction
+		cancel()
+		for range insertErrC {
+		}
 		return fmt.Errorf("could not distribute or insert points: %w", err)
 	}
 	// ---------------------------
